@@ -34,6 +34,57 @@ CLAIMED["C15"] = {
     "design_ref": "DESIGN.md section 5 C15",
     "technique": "Coq proof over R of a scalar-generic model + bit-exact Flocq/vm_compute correspondence",
 }
+
+CLAIMED["C02"] = {
+    "text": "Coq theorems over an abstract operations bundle (no algebraic law assumed about frame arithmetic, sounds, effects or track control: bit-for-bit for binary32): the buffer-level model of Mixer/Track/SendTrack::process (shared temp buffers, slices, zip-truncated +=, fill(ZERO), send inputs, arena order) REFINES the recursive signal-flow specification for every tree, every chunk list and every history of callbacks interleaved with edits, and leaves every buffer zero again (nothing carries over between tracks, chunks or callbacks; a removed/paused/unrouted branch contributes exact zeros); sends are post-fader; every sound and effect on an advancing path is asked for each frame exactly once, in order, in slices of 1..b; closed form of the documented sum over any commutative semiring and over R. Correspondence: random track trees/sends/probe sounds/probe effects/pause and removal histories rendered by a real AudioManager, device buffer and call log of every probe compared with the model (dyadic probe values, so all float operations are exact). Partial: built-in effects and real sounds enter as abstract frame transducers (their own laws are C04/C13).",
+    "design_ref": "DESIGN.md section 5 C02",
+    "technique": "Coq proof (refinement of a buffer-level model to a signal-flow spec, induction over trees and histories) + correspondence through a real AudioManager",
+}
+CLAIMED["C04"] = {
+    "text": "Coq theorems about statement-level models of Transport, Resampler, StaticSoundData slicing and StaticSound::process: no panic/hang for ANY start, loop region (empty/inverted ignored: F6 repaired), slice (F9 repaired), reverse start (F10 repaired) and history of increments/decrements/seeks/loop changes; reads only inside the slice; exact played sequence forwards/backwards with loop end -> loop start; stops exactly after the last frame; one position update per output frame at unit increment and bit-exact reproduction in binary32 (sign of zero caveat proved); Hermite polynomial identities over Q; the resampling law (position + fraction accumulates increments exactly, floor(fraction+inc) updates) ; position() names the frame heard. Known findings proved as theorems with witnesses: F19 seek_by measured three frames ahead, F20 non-unit sr*(1/sr) for e.g. 49 Hz (all standard rates proved unit), F24 seek in the last three frames ignored. Correspondence: bit-exact binary32/binary64 comparison of every output sample, state and position of real static sounds over generated slices/loops/rates/chunkings/command schedules.",
+    "design_ref": "DESIGN.md section 5 C04",
+    "technique": "Coq proof (invariants + induction over operation lists; Q and Flocq binary32 instances) + bit-exact Flocq/vm_compute correspondence",
+}
+CLAIMED["C05"] = {
+    "text": "Coq theorems about models of Clock::update / Clocks::process (for_each with own-slot dummy), ClockSpeed, Info::when_to_start, the renderer's chunk order and the two-word ClockShared: exact time = old + speed x elapsed for EVERY partition into callbacks/chunks (Q), partition independence, varying speed via the C06 law, pause freezes (any number type), stop resets, speed change when due, event-buffer rule for every chunk history (waits while paused or short of tau, begins in the first buffer whose clock update reaches tau, at most one buffer early, never late, cancelled when the clock no longer resolves); for ALL schedules of reader vs audio thread no word is out of thin air and non-overlapping reads are atomic and monotone. Known findings proved with witnesses and replayed through cfg yield hooks: F7 tick loop diverges (SecondsPerTick(0)), F16 torn two-word read, F17 speed tween on the clock's own time never starts. Correspondence: bit-exact clock times/ticking and waiter begin frames on a real AudioManager over generated histories. Partial: modulator-linked speeds and streaming waiters not driven.",
+    "design_ref": "DESIGN.md section 5 C05",
+    "technique": "Coq proof (induction over update/chunk lists; all-schedule invariant for the shared words) + bit-exact correspondence incl. hook-driven interleavings",
+}
+CLAIMED["C08"] = {
+    "text": "Coq theorems, closed under the global context, over a step-level model of ResourceController/ResourceStorage/SelfReferentialResourceStorage + atomic-arena + the new/unused rings, for EVERY capacity (0 included), both storage variants and EVERY interleaving of gameplay-thread and audio-thread atomic steps: an inductive invariant (no panic reachable; alive+queued+reserved <= capacity; unused ring never full; free list exact; generations agree; each payload in exactly one place); exact capacity accounting and limit error iff count = capacity; prompt removal at the next callback (the one after if still queued); payloads destroyed only on the caller's thread, at most once; no stale ids (a reused slot carries a larger generation). F2 (capacity 0) and F27 (unused-ring overflow race) were found by these proofs, repaired by fix commits and are pinned as regressions. Correspondence: generated create/mark/callback histories on all eight storages of a real AudioManager incl. hook-driven interleavings at the removal/push window, plus a two-thread stress with monitors.",
+    "design_ref": "DESIGN.md section 5 C08",
+    "technique": "Coq proof (inductive invariant over all interleavings of a step-level model) + correspondence with the real storages (hook-driven schedules)",
+}
+CLAIMED["C10"] = {
+    "text": "Coq theorems, closed under the global context, over a step model of DecodeScheduler::run / StreamingSound and its rtrb rings for all schedules: the decoder thread ends at its next wake-up once the sound is Stopped, finished, failed, rejected or abandoned (F12, F13 repaired and pinned), only for one of those reasons; each step sleeps, makes progress or ends (no busy spin); an error at ANY decode call k stops the sound, unloads it and the FIRST error is what pop_error returns; a slow decoder yields whole silent, frozen chunks and nothing is lost or repeated between chunks. Known findings proved with witnesses: F31 thread lingers while its sound sits in an unused-resource queue, F32 an underrun in mid-chunk skips frames. Correspondence: scripted decoders (packet sizes, errors at chosen calls, slowness) behind real StreamingSoundData on a real AudioManager; thread end observed through decoder Drop and a live-thread counter; decode-call rate monitor. Partial: wall-clock bounds are measured, not proved.",
+    "design_ref": "DESIGN.md section 5 C10",
+    "technique": "Coq proof (step-level liveness/safety over all schedules) + correspondence with scripted decoders on real threads",
+}
+CLAIMED["C11"] = {
+    "text": "Coq theorems, closed under the global context, over the C02 buffer-level renderer model with NO law assumed about float arithmetic: if every sound and effect is a frame-sequential transducer (discharged for kira's by C04/C13) and parameters are steady, any two (internal buffer size, callback partition) configurations with the same total render the same device samples and final state; the whole mixer is itself frame-sequential; remainder chunks use only a prefix of every buffer; Renderer::process splits n frames into chunks of 1..b summing to n. Correspondence: probe scenes and real scenes (static sounds, tracks, sends, built-in effects) rendered by a real AudioManager under 4-8 configurations (b=1, b=4096, one-frame callbacks, non-multiples) and compared bit-for-bit with each other and with the model. Partial: recursive effects compared bit-for-bit on the implementation (stronger than 1e-6) but their sequentiality in binary32 is proved in C13 only for the modelled effects.",
+    "design_ref": "DESIGN.md section 5 C11",
+    "technique": "Coq proof (partition independence by induction over chunk lists of the buffer-level model) + bit-exact rendering-vs-rendering and model correspondence",
+}
+CLAIMED["C12"] = {
+    "text": "Coq theorems, closed under the global context, over a model of Track::on_start_processing/process, its PlaybackStateManager, the removal rule and the handle mirror, generic in number type and sound/effect behaviour: a non-advancing track returns exact zeros and its whole subtree (sounds, sub-tracks, delays, fades) is untouched, for every number of chunks; resume continues from the frozen state; resume_at waits, resumes or falls back when the clock is removed (F1 repaired, pinned); fade then freeze; a track is removed at callback start iff its handle is dropped, every descendant is marked and (if persisting) its sounds are finished, never while a descendant or queued resource is alive (F28 repaired, pinned); removed tracks are silent; the mirror is always one of the five states and state() is total. Correspondence: real AudioManager with generated trees, sounds, clocks, pause/resume/resume_at/drop histories; output, positions and handle states compared with the model.",
+    "design_ref": "DESIGN.md section 5 C12",
+    "technique": "Coq proof (invariants over all histories of a generic track-tree model) + correspondence through a real AudioManager",
+}
+CLAIMED["C13"] = {
+    "text": "Coq theorems over models of all built-in effects (filter, EQ, delay with nested feedback effects, reverb, compressor, distortion, volume, panning) written once over abstract sample operations: process on any slicing equals the per-frame recurrence (chunk-free, partition independent, any nesting, any length; bit-for-bit since no law is assumed); no panic from init for any delay time (F3 repaired) at rates >= 196 Hz; silence in -> silence out from a cleared state (R and binary32); dry mix / 0 dB volume / centre pan / 0 dB EQ / hard clip 0 dB are identities (R; binary32 with the sign-of-zero and finite-wet caveats proved and refuted where false); superposition and scaling of the linear effects over R for inputs of any length. Correspondence: each effect built by its public builder and run on generated signals/slicings, every output sample compared as binary32 bits with the Flocq instance (libm values from an oracle table). Partial: finiteness over arbitrarily long runs in binary32 is monitored, not proved (no FP error analysis).",
+    "design_ref": "DESIGN.md section 5 C13",
+    "technique": "Coq proof (operation-generic recurrence equivalence; R for linearity/identities; Flocq binary32 facts) + bit-exact Flocq/vm_compute correspondence",
+}
+CLAIMED["C16"] = {
+    "text": "Coq theorems, closed under the global context: a protocol model of the sample-rate hand-off (rate loaded on the caller's thread, effect initialised, track queued, on_change_sample_rate fan-out over the arenas, callback) proves for ALL histories that every effect processes with the rate in force EXCEPT exactly the class of known finding F14 (track queued across a change), which is characterised, refuted with witnesses (sequential and racy) and replayed on the real code; scaling theorems over Q: sound position/duration, clock time and tween time are functions of elapsed seconds only (dt = 1/sr), with the exact error terms for delay length rounding and filter coefficients depending on f/sr only. Correspondence: add/change/callback histories (incl. changes injected between the load and the enqueue) on a real AudioManager with probe effects; scenes rendered at 7 device rates and across mid-stream changes with durations, clock time and tween completion measured in seconds.",
+    "design_ref": "DESIGN.md section 5 C16",
+    "technique": "Coq proof (all-histories protocol invariant; scaling laws over Q) + correspondence with probe effects on a real AudioManager",
+}
+CLAIMED["C18"] = {
+    "text": "Coq theorems: WAV encode/decode round trip for every spec of the modelled subset (six encodings, any channels, any rate, any in-range frames); static load = specified conversion frame by frame (mono duplicated, >2 channels error); truncation gives a valid prefix or an error; the 8/16/24-bit sample conversions are exact, in [-1,1), strictly monotone and injective in binary32; frame_at_index / the decode scheduler return frame i of the audio for ANY conforming decoder (any packet sizes, any seek-landing function), ANY start position and ANY history of seeks (streaming = loading). Correspondence: generated WAV files, truncations and corruptions loaded by StaticSoundData::from_cursor (symphonia) and compared sample-for-sample with the reference decoder; streaming playback of the repo's wav/ogg assets vs static load from any start and after seek sequences. Known findings F25 (WAV with sample rate 0 panics), F26 (ogg stream seek misaligned). Partial: the compressed codecs (ogg/mp3/flac) are outside the model; they are compared implementation-vs-implementation only.",
+    "design_ref": "DESIGN.md section 5 C18",
+    "technique": "Coq proof (round trip, exact conversions via Flocq, scheduler refinement for all decoders/seek histories) + correspondence with symphonia on generated files",
+}
 REASON_WIP = "check not built yet in this session (work in progress; planned per DESIGN.md section 5)"
 
 def main():
@@ -78,6 +129,6 @@ def main():
     }
     json.dump(m, open("/verif/MANIFEST.json", "w"), indent=1)
 
-HOOK_COMMITS = ["c3a3210"]
+HOOK_COMMITS = ["c3a3210", "3d8e4a9", "b9497fa", "7696f91", "f571aea"]
 if __name__ == "__main__":
     main()
